@@ -114,15 +114,96 @@ class World(object):
         R('__yield', lambda mm, th, a, g: UNIT, visible=True)
         def gate_en(mm, th, a, ph, g): return s.ghost.get('gate%d' % a[0].val, FALSE)
         R('__gate_wait', lambda mm, th, a, g: UNIT, visible=True, enabled=gate_en)
-        def gate_open(mm, th, a, g):
-            s.gset('gate%d' % a[0].val, TRUE, g, FALSE); return UNIT
-        R('__gate_open', gate_open, visible=True)
         def await_all_en(mm, th, a, ph, g):
             out = TRUE
             for t in mm.threads:
                 if t.role == 'caller' and t is not th and not t.final: out = And(out, t.finished)
             return out
         R('__await_callers', lambda mm, th, a, g: UNIT, visible=True, enabled=await_all_en)
+        # ---- futures side of the harness
+        def op_ret(mm, th, a, g):
+            s.gset('ret%d' % a[0].val, BV(mm.now), g, NONE_T); return UNIT
+        R('__op_ret', op_ret)
+        def gate_open2(mm, th, a, g):
+            k = a[0].val
+            s.gset('gate%d' % k, TRUE, g, FALSE)
+            wk = s.ghost.get('gatewaker%d' % k)
+            if wk is None: return NoneV()
+            s.ghost['gatewaker%d' % k] = merge(g, NoneV(), wk)
+            return wk
+        R('__gate_open', gate_open2, visible=True)
+        def gate_poll(mm, th, a, g):
+            pin = a[0]; r = pin.f[0] if isinstance(pin, St) and pin.ty == 'Pin' else pin
+            fut = mm.load(r, g)
+            if not isinstance(fut, St) or 'gate' not in fut.f.keys() and 0 not in fut.f: return POISON
+            f = fut.f
+            gate = f[0]; op = f[1]; obj = f[2]; tok = f[3]
+            gk = gate.val if gate.op == 'c' else None; opk = op.val; objk = obj.val
+            opened = TRUE if gk == 9999 else s.ghost.get('gate%d' % gk, FALSE)
+            fin = And(g, opened)
+            # completing: leave the object
+            occ = s.ghost.get('occ%d' % objk, ZERO)
+            s.ghost['occ%d' % objk] = Ite(And(fin, Ugt(occ, ZERO)), Sub(occ, ONE), occ)
+            s.gset('end%d' % opk, BV(mm.now), fin, NONE_T)
+            mm.store(r.proj(('f', 4)), TRUE, fin)
+            pend = And(g, Not(opened))
+            if pend is not FALSE:
+                cx = mm.load(a[1], g)
+                wk = mm.load(cx.f['w'], g) if isinstance(cx, St) else None
+                if isinstance(wk, St):
+                    wk = s.nat.table['__waker_clone'].apply(mm, th, [cx.f['w']], pend)
+                    old = s.ghost.get('gatewaker%d' % gk, NoneV())
+                    s.ghost['gatewaker%d' % gk] = merge(pend, Some(wk), old)
+                s.gset('polled_pending%d' % opk, TRUE, pend, FALSE)
+            return En(POLL, Ite(opened, ZERO, ONE), {0: St(None, {0: tok})})
+        R('__gate_poll', gate_poll, visible=True)
+        def gatefut_drop(mm, th, a, g):
+            fut = mm.load(a[0], g)
+            if not isinstance(fut, St): return UNIT
+            f = fut.f; done = f[4]; opk = f[1].val; objk = f[2].val
+            canc = And(g, Not(done))
+            occ = s.ghost.get('occ%d' % objk, ZERO)
+            s.ghost['occ%d' % objk] = Ite(And(canc, Ugt(occ, ZERO)), Sub(occ, ONE), occ)
+            s.gset('cancelled%d' % opk, TRUE, canc, FALSE)
+            s.gset('end%d' % opk, BV(mm.now), canc, NONE_T)
+            return UNIT
+        R('__gatefut_drop', gatefut_drop)
+        R('__waker_clone', lambda mm, th, a, g: s.nat.trait[('Clone', 'clone', 'Waker')].apply(mm, th, a, g))
+        def task_waker(mm, th, a, g):
+            from .natives import TASK_VT_BASE
+            return St('Waker', {'vt': BV(TASK_VT_BASE + a[0].val), 'data': Ref([])})
+        R('__task_waker', task_waker)
+        def task_wake(mm, th, a, g):
+            s.gset('woken%d' % a[0].val, TRUE, g, FALSE); return UNIT
+        R('__task_wake', task_wake, visible=True)
+        def task_wait_en(mm, th, a, ph, g): return s.ghost.get('woken%d' % a[0].val, FALSE)
+        def task_wait(mm, th, a, g):
+            s.gset('woken%d' % a[0].val, FALSE, g, FALSE); return UNIT
+        R('__task_wait', task_wait, visible=True, enabled=task_wait_en)
+        def fut_done(mm, th, a, g):
+            op = a[0].val
+            s.gset('fret%d' % op, BV(mm.now), g, NONE_T)
+            s.ghost['fres%d' % op] = merge(g, payload(a[1], 0), s.ghost.get('fres%d' % op))
+            n = s.ghost.get('nready%d' % op, ZERO); s.ghost['nready%d' % op] = Ite(And(g, Ult(n, BV(3))), Add(n, ONE), n)
+            return UNIT
+        R('__fut_done', fut_done)
+        def fut_done_res(mm, th, a, g):
+            op = a[0].val
+            s.gset('fret%d' % op, BV(mm.now), g, NONE_T)
+            s.ghost['fres%d' % op] = merge(g, a[1], s.ghost.get('fres%d' % op))
+            return UNIT
+        R('__fut_done_res', fut_done_res)
+        def fut_polled(mm, th, a, g):
+            op = a[0].val; pr = a[1]
+            if isinstance(pr, En):
+                rdy = And(g, Eq(pr.disc, ZERO))
+                s.gset('fret%d' % op, BV(mm.now), rdy, NONE_T)
+                s.ghost['fres%d' % op] = merge(rdy, payload(pr, 0), s.ghost.get('fres%d' % op))
+                n = s.ghost.get('nready%d' % op, ZERO); s.ghost['nready%d' % op] = Ite(And(rdy, Ult(n, BV(3))), Add(n, ONE), n)
+            return UNIT
+        R('__fut_polled', fut_polled)
+        R('__fut_dropped', lambda mm, th, a, g: (s.gset('fdropped%d' % a[0].val, BV(mm.now), g, NONE_T), UNIT)[1])
+        R('__resumed', lambda mm, th, a, g: (s.gset('resumed%d' % a[0].val, BV(mm.now), g, NONE_T), UNIT)[1])
         def vec_elem_ref(mm, th, a, g): return a[0].proj(('f', a[1].val))
         R('__vec_elem_ref', vec_elem_ref)
         def vec_compact(mm, th, a, g):
@@ -158,13 +239,13 @@ class World(object):
             b += 2
         L += ['    bb%d: {' % b, '        return;', '    }', '}', '']
         T.append('\n'.join(L))
-        opid = 0
+        opid = 0; ntasks = [0]
         s.thread_specs = []
         for ti, th in enumerate(sc['threads']):
             name = th['name']
             blocks = []     # list of (stmts, term)
             def emit(stmts, term): blocks.append((stmts, term))
-            loc = [20]
+            loc = [20]; futvars = {}; resvars = {}
             def fresh():
                 loc[0] += 1; return loc[0]
             if th.get('final'):
@@ -187,7 +268,71 @@ class World(object):
                     s.ops[opid]['tok'] = tok
                     opid += 1
                 elif kind == 'open_gate':
-                    emit([], '_%d = __gate_open(const %d_usize) -> [return: bb%d, unwind continue]' % (fresh(), op[1], len(blocks) + 1))
+                    # open the gate, then wake whatever waker the gated future registered (None if nobody waits yet)
+                    w_ = fresh(); d_ = fresh(); k_ = fresh(); u_ = fresh()
+                    n0 = len(blocks)
+                    emit([], '_%d = __gate_open(const %d_usize) -> [return: bb%d, unwind continue]' % (w_, op[1], n0 + 1))
+                    emit(['_%d = discriminant(_%d)' % (d_, w_)], 'switchInt(move _%d) -> [0: bb%d, otherwise: bb%d]' % (d_, n0 + 3, n0 + 2))
+                    emit(['_%d = move ((_%d as Some).0: Waker)' % (k_, w_)], '_%d = Waker::wake(move _%d) -> [return: bb%d, unwind continue]' % (u_, k_, n0 + 3))
+                elif kind in ('future_desync', 'future_sync'):
+                    q = op[1]; body = op[2] if len(op) > 2 else {}
+                    fk = body.get('fut', 'ready')
+                    s.ops[opid] = dict(thread=name, tid=None, obj=q, kind=kind, idx=oi, opid=opid, tindex=ti, probe=False,
+                                       gated=isinstance(fk, tuple), var=body.get('as', 'f%d' % opid), tok=40 + opid)
+                    cl = 'scen:%s:%d' % (name, oi)
+                    T.append(s.future_closure(name, oi, cl, q, opid, fk, 40 + opid))
+                    c = fresh(); y = fresh(); fv = fresh(); x = fresh()
+                    futvars[s.ops[opid]['var']] = (fv, opid, kind)
+                    emit(['_%d = {closure@%s} { }' % (c, cl)], '_%d = __op_inv(const %d_usize) -> [return: bb%d, unwind continue]' % (y, opid, len(blocks) + 1))
+                    if kind == 'future_desync':
+                        emit([], '_%d = desync_scheduler::future_desync::<{closure@%s}, GateFut>(copy _%d, move _%d) -> [return: bb%d, unwind continue]' % (fv, cl, 1 + q, c, len(blocks) + 1))
+                    else:
+                        emit([], '_%d = desync_scheduler::future_sync::<{closure@%s}, GateFut>(copy _%d, move _%d) -> [return: bb%d, unwind continue]' % (fv, cl, 1 + q, c, len(blocks) + 1))
+                    emit([], '_%d = __op_ret(const %d_usize) -> [return: bb%d, unwind continue]' % (x, opid, len(blocks) + 1))
+                    opid += 1
+                elif kind == 'suspend':
+                    q = op[1]; body = op[2] if len(op) > 2 else {}
+                    s.ops[opid] = dict(thread=name, tid=None, obj=q, kind='suspend', idx=oi, opid=opid, tindex=ti, probe=False, gated=True, var=body.get('as', 'f%d' % opid), tok=0)
+                    y = fresh(); fv = fresh(); x = fresh(); sr = fresh()
+                    futvars[s.ops[opid]['var']] = (fv, opid, 'suspend')
+                    emit([], '_%d = __op_inv(const %d_usize) -> [return: bb%d, unwind continue]' % (y, opid, len(blocks) + 1))
+                    emit([], '_%d = desync_scheduler::scheduler::<\'_>() -> [return: bb%d, unwind continue]' % (sr, len(blocks) + 1))
+                    emit([], '_%d = desync_scheduler::Scheduler::suspend(copy _%d, copy _%d) -> [return: bb%d, unwind continue]' % (fv, sr, 1 + q, len(blocks) + 1))
+                    emit([], '_%d = __op_ret(const %d_usize) -> [return: bb%d, unwind continue]' % (x, opid, len(blocks) + 1))
+                    opid += 1
+                elif kind in ('block_on', 'poll'):
+                    fv, fop, fkind = futvars[op[1]]
+                    task = ntasks[0]; ntasks[0] += 1
+                    wk = fresh(); cx = fresh(); rf = fresh(); pn = fresh(); pr = fresh(); d_ = fresh(); u_ = fresh(); wr = fresh()
+                    n0 = len(blocks)
+                    emit([], '_%d = __task_waker(const %d_usize) -> [return: bb%d, unwind continue]' % (wk, task, n0 + 1))
+                    emit(['_%d = &_%d' % (wr, wk)], '_%d = Context::<\'_>::from_waker(copy _%d) -> [return: bb%d, unwind continue]' % (cx, wr, n0 + 2))
+                    # poll loop head
+                    emit(['_%d = &mut _%d' % (rf, fv)], '_%d = Pin::<&mut F>::new(copy _%d) -> [return: bb%d, unwind continue]' % (pn, rf, n0 + 3))
+                    emit(['_%d = &mut _%d' % (u_, cx)], '_%d = <F as Future>::poll(move _%d, copy _%d) -> [return: bb%d, unwind continue]' % (pr, pn, u_, n0 + 4))
+                    if kind == 'block_on':
+                        emit(['_%d = discriminant(_%d)' % (d_, pr)], 'switchInt(move _%d) -> [0: bb%d, otherwise: bb%d]' % (d_, n0 + 6, n0 + 5))
+                        emit([], '_%d = __task_wait(const %d_usize) -> [return: bb%d, unwind continue]' % (fresh(), task, n0 + 2))
+                        emit([], '_%d = __fut_done(const %d_usize, move _%d) -> [return: bb%d, unwind continue]' % (fresh(), fop, pr, n0 + 7))
+                        resvars[op[1]] = pr
+                    else:
+                        emit([], '_%d = __fut_polled(const %d_usize, move _%d) -> [return: bb%d, unwind continue]' % (fresh(), fop, pr, n0 + 5))
+                elif kind in ('drop_fut', 'detach'):
+                    fv, fop, fkind = futvars[op[1]]
+                    emit([], '_%d = mem::drop::<F>(move _%d) -> [return: bb%d, unwind continue]' % (fresh(), fv, len(blocks) + 1))
+                    emit([], '_%d = __fut_dropped(const %d_usize) -> [return: bb%d, unwind continue]' % (fresh(), fop, len(blocks) + 1))
+                elif kind == 'sync_fut':
+                    fv, fop, fkind = futvars[op[1]]
+                    r = fresh()
+                    emit([], '_%d = scheduler_future::SchedulerFuture::<u32>::sync(move _%d) -> [return: bb%d, unwind continue]' % (r, fv, len(blocks) + 1))
+                    emit([], '_%d = __fut_done_res(const %d_usize, move _%d) -> [return: bb%d, unwind continue]' % (fresh(), fop, r, len(blocks) + 1))
+                elif kind == 'resume':
+                    # the future named op[1] resolved to Ok(QueueResumer): take it out of the poll result and resume / drop it
+                    pr = resvars[op[1]]
+                    a_ = fresh(); b_ = fresh()
+                    emit(['_%d = move ((_%d as Ready).0: Result<QueueResumer, Canceled>)' % (a_, pr), '_%d = move ((_%d as Ok).0: QueueResumer)' % (b_, a_)],
+                         ('_%d = queue_resumer::QueueResumer::resume(move _%d) -> [return: bb%d, unwind continue]' if op[2] == 'resume' else '_%d = mem::drop::<QueueResumer>(move _%d) -> [return: bb%d, unwind continue]') % (fresh(), b_, len(blocks) + 1))
+                    emit([], '_%d = __resumed(const %d_usize) -> [return: bb%d, unwind continue]' % (fresh(), futvars[op[1]][1], len(blocks) + 1))
                 else: raise EncodeError('scenario op ' + kind)
             emit([], 'return')
             L = ['fn scen::thread_%s(%s) -> () {' % (name, ', '.join('_%d: &Arc<JobQueue>' % (1 + q) for q in range(nq)))]
@@ -198,6 +343,24 @@ class World(object):
             L += ['}', '']
             T.append('\n'.join(L))
             s.thread_specs.append((name, 'scen::thread_%s' % name, th))
+        T.append('''fn scen::GateFut::poll(_1: Pin<&mut GateFut>, _2: &mut Context<'_>) -> Poll<u32> {
+    bb0: {
+        _0 = __gate_poll(copy _1, copy _2) -> [return: bb1, unwind continue];
+    }
+    bb1: {
+        return;
+    }
+}
+
+fn scen::GateFut::drop(_1: &mut GateFut) -> () {
+    bb0: {
+        _0 = __gatefut_drop(copy _1) -> [return: bb1, unwind continue];
+    }
+    bb1: {
+        return;
+    }
+}
+''')
         # pool thread main: runs the closure given to Builder::spawn
         T.append('''fn scen::pool_main(_1: F) -> () {
     bb0: {
@@ -215,6 +378,8 @@ class World(object):
         for name, l in fns.items():
             for f in l:
                 f.origin = 'scenario'; s.prog.add_fn(f)
+        s.prog.traitm[('Future', 'GateFut', 'poll')] = s.prog.byname['scen::GateFut::poll']
+        s.prog.drops['GateFut'] = s.prog.byname['scen::GateFut::drop']
         # threads
         init = m.add_thread('init', s.prog.byname['scen::init'], [])
         init.role = 'init'
@@ -235,6 +400,19 @@ class World(object):
             t.role = 'pool'; t.is_pool = True; t.pool_index = i
         for op in s.ops.values():
             op['tid'] = [t.tid for t in m.threads if t.name == op['thread']][0]
+    def future_closure(s, tname, oi, cl, obj, opid, fk, tok):
+        """closure passed to future_desync/future_sync: enters the object and returns the user future (ready, or pending on a gate)"""
+        gate = fk[1] if isinstance(fk, tuple) else 9999
+        return '''fn scen::thread_%s::{closure#%d}(_1: {closure@%s}) -> GateFut {
+    bb0: {
+        _2 = __enter(const %d_usize, const %d_usize) -> [return: bb1, unwind continue];
+    }
+    bb1: {
+        _0 = GateFut { gate: const %d_usize, op: const %d_usize, obj: const %d_usize, tok: const %d_u32, done: const false };
+        return;
+    }
+}
+''' % (tname, oi, cl, obj, opid, gate, opid, obj, tok)
     def job_closure(s, tname, oi, cl, obj, opid, body, returns, tok):
         acts = body.get('acts', ['enter', 'yield', 'exit'])
         L = ['fn scen::thread_%s::{closure#%d}(_1: {closure@%s}) -> %s {' % (tname, oi, cl, 'u32' if returns else '()')]
